@@ -67,6 +67,10 @@ theorem css_raw_retokenises_counterexample : type_of% @Verif.Proofs.C09Css.css_r
 theorem css_declaration_retokenises : type_of% @Verif.Proofs.C09Css.css_declaration_retokenises :=
   @Verif.Proofs.C09Css.css_declaration_retokenises
 
+/-- **CSS, declaration minifier of the model, raw path** -/
+theorem css_declaration_retokenises_raw : type_of% @Verif.Proofs.C09Css.css_declaration_retokenises_raw :=
+  @Verif.Proofs.C09Css.css_declaration_retokenises_raw
+
 /-- **CSS, second pass**: every token the independent tokeniser reads in a written declaration is again a closed
     token of its type, none a bad-string or bad-url: the lexer contract holds again for the second pass -/
 theorem css_second_pass_tokens : type_of% @Verif.Proofs.C09Css.css_second_pass_tokens :=
